@@ -258,6 +258,8 @@ CONFIG = [
                 'self.stats.update': 'stats_update',
                 'self._purge_results': 'purge',
                 'self._ensure_worker_processes_killed': 'kill_workers',
+                'RESULTS_STORE_LOCK.acquire': 'store_lock_try_acquire',
+                'RESULTS_STORE_LOCK.release': 'store_lock_force_release',
                 'concurrent.futures.as_completed': 'as_completed'},
       'cells': {"self.stats['jobs_completed']": 'jobs_completed',
                 "self.stats['total_jobs']": 'total_jobs',
